@@ -181,6 +181,11 @@ PRELUDE = r'''
   (file/write f "hey") (file/flush f) (file/close f)
   (assert (deep= @"hey" (ev/read r 3)))
   (ev/close w) (ev/close r))
+# ---- shared (reference counted) objects inside a message that is never taken: the carrier channel becomes garbage
+# a carrier thread channel holding one undelivered message that refers to x...; only the message refers to the carrier's content
+(defn undelivered [& xs] (def m (ev/thread-chan 4)) (ev/give m [:request ;xs]) nil)
+# a carrier whose undelivered message holds the ONLY references to a fresh lock, thread channel and rwlock
+(defn carrier-with-fresh [] (def m (ev/thread-chan 4)) (ev/give m [:request (ev/lock) (ev/thread-chan 1) (ev/rwlock)]) m)
 (defn free-port-listener []
   # listen on an ephemeral loopback port; returns [server port]
   (def s (net/listen "127.0.0.1" "0"))
@@ -531,6 +536,11 @@ CYCLES.update({
     "burst-thread-nowait": ("thread", "\n  (for j 0 (+ 1 (% (+ i {A}) 24)) (ev/thread (fn [] nil) nil :n))\n  (hold-until-in-pipe (+ 1 (% (+ i {A}) 24)))\n  (quiesce)"),
     "burst-proc-waits": ("proc", "\n  (burst-proc (+ 1 (% (+ i {A}) 20)))"),
     "burst-tchan-wakeups": ("thread", "\n  (burst-tchan (+ 1 (% (+ i {A}) 40)))\n  (quiesce)"),
+    # ---- a shared object travels inside a message nobody takes; the carrier channel is collected (its finaliser gives the
+    #      in-transit reference back), in both orders: carrier first / other holders first; and with a worker thread as a holder
+    "shared-undelivered-carrier-first": ("cheap", "\n  (def x [(ev/lock) (ev/thread-chan 1) (ev/rwlock)])\n  (undelivered ;x)\n  (gccollect)           # the carrier goes, x is still held here\n  (assert (= 0 (ev/count (x 1))))"),
+    "shared-undelivered-holders-first": ("cheap", "\n  (def m (carrier-with-fresh))\n  (gccollect)           # this thread's handles of the three objects go, the message keeps them alive\n  (assert (= 1 (ev/count m)))"),
+    "shared-undelivered-after-worker": ("thread", "\n  (def c (ev/thread-chan 2)) (def back (ev/thread-chan 2))\n  (thread-echo c back 1)\n  (def x (ev/thread-chan 1))\n  (ev/give c x) (assert (= x (ev/take back)))     # a worker thread held it too, and has ended\n  (quiesce)\n  (undelivered x c back)\n  (when (odd? i) (gccollect))"),
     # ---- signals, file watcher, ev/to-file
     "signal-roundtrip": ("cheap", "\n  (signal-roundtrip)"),
     "sigaction-install-replace-remove": ("cheap", "\n  (os/sigaction :usr1 (fn [&] nil))\n  (os/sigaction :usr1 (fn [&] 1))\n  (when (odd? i) (os/sigaction :usr1 nil))\n  (os/sigaction :usr1 nil)"),
